@@ -138,6 +138,66 @@ def register_keep(reg):
         mutants=[('np.searchsorted(self.labels, label)', 'np.searchsorted(self.labels, label) - 1'),
                  ('np.searchsorted(self.labels, label)', 'np.searchsorted(self.labels, label + 1)')],
     ))
+    reg.add(Contract(
+        target=f'{SEG}.check_labels', props=['C05'], kind='method', tag='many',
+        params={'self': 'SegmentationImageIndex', 'labels': ('seq', 'int')},
+        requires=['forall(lambda q: exists(lambda k: self.labels[k] == labels[q], '
+                  '(0, len(self.labels))), (0, len(labels)))'],
+        ensures=[], returns=None, assumed=True,
+        note='check_labels (sequence form): every given label is a label of the image',
+    ))
+    reg.add(Contract(
+        target=f'{SEG}.get_indices', props=['C05', 'C06', 'C07'], kind='method',
+        params={'self': 'SegmentationImageIndex', 'labels': ('seq', 'int')},
+        requires=['forall(lambda k, m: implies(k < m, self.labels[k] < self.labels[m]), '
+                  '(0, len(self.labels)), (0, len(self.labels)))',
+                  'forall(lambda q: exists(lambda k: self.labels[k] == labels[q], '
+                  '(0, len(self.labels))), (0, len(labels)))'],
+        ensures=[('one-index-per-requested-label-in-the-order-requested',
+                  'len(result) == len(labels) and forall(lambda q: result[q] >= 0 and '
+                  'result[q] < len(self.labels) and self.labels[result[q]] == labels[q], '
+                  '(0, len(labels)))')],
+        returns=('seq', 'int'),
+        mutants=[('np.searchsorted(self.labels, labels)', 'np.searchsorted(self.labels, labels) - 1'),
+                 ('np.searchsorted(self.labels, labels)', 'np.searchsorted(self.labels, self.labels)')],
+    ))
+    # areas: entry k counts the pixels of label k inside slices k; get_areas pairs each requested
+    # label with the area of *that* label
+    reg.record('SegmentationImageAreas', {'labels': ('seq', 'int'), 'slices': ('seq', 'slice2'),
+                                          '_data': ('arr', 2, 'int')})
+    sl = 'self.slices[k]'
+    reg.add(Contract(
+        target=f'{SEG}.areas', props=['C05', 'C04'], kind='property', block=('areas', 'areas'),
+        params={'self': 'SegmentationImageAreas'},
+        requires=['len(self.labels) == len(self.slices)',
+                  f'forall(lambda k: 0 <= {sl}[0].start and {sl}[0].start < {sl}[0].stop and '
+                  f'{sl}[0].stop <= self._data.shape[0] and 0 <= {sl}[1].start and '
+                  f'{sl}[1].start < {sl}[1].stop and {sl}[1].stop <= self._data.shape[1], '
+                  '(0, len(self.slices)))'],
+        ensures=[('one-per-label', 'len(areas) == len(self.labels)'),
+                 ('pixels-of-label-k-inside-its-slices',
+                  f'forall(lambda k: areas[k] == np.count_nonzero(self._data[{sl}] == '
+                  'self.labels[k]), (0, len(areas)))')],
+        mutants=[('self._data[slices] == label', 'self._data[slices] != 0'),
+                 ('zip(self.labels, self.slices, strict=True)', 'zip(self.labels[::-1], self.slices, strict=True)')],
+    ))
+    reg.record('SegmentationImageGetAreas', {'labels': ('seq', 'int'), 'areas': ('arr', 1, 'int')},
+               bases=('SegmentationImage',))
+    reg.add(Contract(
+        target=f'{SEG}.get_areas', props=['C05', 'C07'], kind='method',
+        params={'self': 'SegmentationImageGetAreas', 'labels': ('seq', 'int')},
+        requires=['self.areas.shape[0] == len(self.labels)',
+                  'forall(lambda k, m: implies(k < m, self.labels[k] < self.labels[m]), '
+                  '(0, len(self.labels)), (0, len(self.labels)))',
+                  'forall(lambda q: exists(lambda k: self.labels[k] == labels[q], '
+                  '(0, len(self.labels))), (0, len(labels)))'],
+        ensures=[('the-area-of-each-requested-label-in-the-order-requested',
+                  'len(result) == len(labels) and forall(lambda q: exists(lambda k: '
+                  'self.labels[k] == labels[q] and result[q] == self.areas[k], '
+                  '(0, len(self.labels))), (0, len(labels)))')],
+        mutants=[('return self.areas[idx]', 'return self.areas[idx[::-1]]'),
+                 ('return self.areas[idx]', 'return self.areas[:len(idx)]')],
+    ))
     # remove_masked_labels(partial_overlap=False): of the labels touching the mask, only those
     # without a pixel outside it are removed
     reg.add(Contract(
